@@ -294,8 +294,10 @@ def arith_containers(op: int, lk: int, rk: int, a: int) -> bool:
     start()
     op, lk, rk = concretize(op, 0, 11), concretize(lk, 0, N_OPERANDS - 1), concretize(rk, 0, N_OPERANDS - 1)
     a, b = concretize(a, 0, 2), 1
-    if OUT in (op, lk, rk, a, b) or op in (INV, NEG) or (op == POW and lk >= 8 and rk >= 8):
+    if OUT in (op, lk, rk, a, b) or (op == POW and lk >= 8 and rk >= 8):
         return True
+    if op in (INV, NEG) and rk != 0:
+        return True                      # unary operators: the right operand is unused
     left, right = _operand(lk, a, b), _operand(rk, b, a)
     t = {'l': left}
     snap = copy.deepcopy(t)
@@ -318,6 +320,61 @@ def arith_containers(op: int, lk: int, rk: int, a: int) -> bool:
             return fail(why='not what the plain operator gives', got=o, exp=exp, left=left, right=right, op=OPNAMES[op])
     if outs[0][0] == 'ok' and outs[0][1] is t['l'] and lk in (0, 2, 4, 6):      # a mutable container of the target
         return fail(why='the result is the very container from the target (operated on in place)')
+    return True
+
+
+# ---- one spec object, several targets: every evaluation resolves its nested arguments afresh ---------------------------
+def _fmt(*a, **kw):
+    return (a, sorted(kw.items()))
+
+
+def reeval_args(kind: int, x: int, y: int, miss: int) -> bool:
+    """the SAME T expression -- with nested T inside keyword arguments / list, dict and tuple arguments / operands -- is
+    evaluated on target 1, target 2 and target 1 again (optionally after an evaluation whose nested argument failed):
+    each result is what the call gives directly on that target"""
+    start()
+    kind, miss = concretize(kind, 0, 6), concretize(miss, 0, 2)
+    if kind is OUT or miss is OUT:
+        return True
+    t1 = {'f': _fmt, 'name': x, 'n': y, 'xs': [x, y]}
+    t2 = {'f': _fmt, 'name': y + 1, 'n': x - 1, 'xs': [y, x, 0]}
+    broken = {'f': _fmt, 'n': 0, 'xs': []}                     # no 'name': the nested argument fails here
+    spec = [T['f'](name=T['name']),
+            T['f']([T['name'], T['n']]),
+            T['f']({'k': T['name'], 'lit': 'name'}),
+            T['f']((T['name'],), k=[T['n']]),
+            T['xs'] + [T['name']],
+            T['f']([], {}, k=[]),
+            T['f'](T['name'], [[T['n']]], k={'d': {'e': T['name']}})][kind]
+
+    def direct(t):
+        return [lambda: _fmt(name=t['name']), lambda: _fmt([t['name'], t['n']]), lambda: _fmt({'k': t['name'], 'lit': 'name'}),
+                lambda: _fmt((t['name'],), k=[t['n']]), lambda: t['xs'] + [t['name']], lambda: _fmt([], {}, k=[]),
+                lambda: _fmt(t['name'], [[t['n']]], k={'d': {'e': t['name']}})][kind]()
+    seq = [t1, t2, t1]
+    if miss == 1:
+        seq = [broken, t1, t2]
+    elif miss == 2:
+        seq = [t1, broken, t2, t1]
+    results = []
+    for t in seq:
+        try:
+            got = glom(t, spec, glom_debug=True)
+        except PathAccessError:
+            if t is not broken or kind == 5:
+                return fail(why='unexpected PathAccessError', t=t)
+            continue
+        if t is broken and kind != 5:
+            return fail(why='the nested argument cannot be resolved on this target', got=got)
+        exp = direct(t)
+        if got != exp:
+            return fail(why='an earlier evaluation shows through in the arguments', got=got, exp=exp, kind=kind, miss=miss)
+        results.append(got)
+    reach('reeval_args')
+    if kind == 5 and len(results) >= 2:
+        a0, a1 = results[0][0], results[1][0]
+        if a0[0] is a1[0] or a0[1] is a1[1]:
+            return fail(why='a literal container argument is rebuilt for every evaluation')
     return True
 
 
@@ -594,9 +651,11 @@ def obligations(tier):
                           name='bits2_%s_any' % OPNAMES_ID[c0]))
     for sh in range(12):
         obs.append(Ob(nested_arg, fixed={'shape': sh}, pre='len(xs) <= 3', name='nested_arg_%d' % sh))
+    obs.append(Ob(reeval_args, pre='0 <= kind <= 6 and 0 <= miss <= 2', name='reeval_args', timeout=150))
+    obs.append(Ob(reeval_args, pre='0 <= kind <= 6 and 0 <= miss <= 2', twin='reeval_args', name='reeval_args'))
     for fop in range(-1, 4):
         obs.append(Ob(arg_order, fixed={'fop': fop}, pre='-1 <= farg <= 3 and 0 <= last <= 2', name='arg_order_f%s' % (fop if fop >= 0 else 'none')))
-    for op in (ADD, SUB, MUL, FLOORDIV, MOD, AND, OR, XOR, POW, TRUEDIV):
+    for op in (ADD, SUB, MUL, FLOORDIV, MOD, AND, OR, XOR, POW, TRUEDIV, INV, NEG):
         obs.append(Ob(arith_containers, fixed={'op': op}, pre='0 <= lk <= %d and 0 <= rk <= %d and 0 <= a <= 2' % (N_OPERANDS - 1, N_OPERANDS - 1),
                       name='arith_containers_%s' % OPNAMES_ID[op], timeout=None if tier == 'quick' else 900))
     for c0 in range(N_STEP_KINDS):
